@@ -259,6 +259,65 @@ def scenario_data(env, cfg):
     env.reach()
 
 
+def scenario_subfields(env, cfg):
+    """field-level API: extract_subfield of fields and collections (all ranks), with and without ghost cells"""
+    import pde
+    from pde.grids._mesh import GridMesh
+
+    _prepare(env)
+    grid, geom = X.make_grid(env, dict(GRIDS[cfg["grid"]], geometry="dyadic"))
+    dec = cfg["dec"]
+    mesh = GridMesh.from_grid(grid, list(dec))
+    concrete = cfg.get("dtype")
+    if concrete:
+        dt = np.dtype(concrete)
+        rng = np.random.default_rng(3)
+
+        def arr(name, shape):
+            a = rng.uniform(-1, 1, shape)
+            if dt.kind == "c":
+                a = a + 1j * rng.uniform(-1, 1, shape)
+            return a.astype(dt)
+
+    else:
+        dt = object if env.sym else float
+
+        def arr(name, shape):
+            return env.array(name, shape, -4, 4)
+
+    sfull = arr("s", grid._shape_full)
+    vfull = arr("v", (grid.dim,) + grid._shape_full)
+    s = pde.ScalarField(grid, np.array(sfull, copy=True), label="s", dtype=dt, with_ghost_cells=True)
+    v = pde.VectorField(grid, np.array(vfull, copy=True), label="v", dtype=dt, with_ghost_cells=True)
+    col = pde.FieldCollection([s.copy(), v.copy()], label="both")
+    fields = {"scalar": s, "vector": v, "collection": col}
+    for fname, f in fields.items():
+        for ghost in (False, True):
+            src = f._data_full if ghost else f.data
+            parts = []
+            for k in range(len(mesh)):
+                sub = mesh.extract_subfield(f, node_id=k, with_ghost_cells=ghost)
+                want = mesh.extract_field_data(np.array(src, copy=True), node_id=k, with_ghost_cells=ghost)
+                got = sub._data_full if ghost else sub.data
+                tag = f"{fname}:ghost={ghost}:node{k}"
+                env.prove(f"{tag}:class-grid-label", sub.__class__ is f.__class__ and sub.grid == mesh[k] and sub.label == f.label and (not isinstance(f, pde.FieldCollection) or list(sub.labels) == list(f.labels)))
+                env.prove(f"{tag}:dtype", sub.dtype == f.dtype)
+                env.prove(f"{tag}:shape", tuple(np.shape(got)) == tuple(np.shape(want)))
+                if concrete:
+                    env.prove(f"{tag}:data=extracted-data", bool(np.array_equal(np.asarray(got), np.asarray(want))))
+                else:
+                    env.same(f"{tag}:data=extracted-data", list(np.asarray(got, dtype=dt).flat), list(np.asarray(want, dtype=dt).flat))
+                parts.append(np.array(sub.data, copy=True))
+            if not ghost:
+                back = mesh.combine_field_data(parts)
+                if concrete:
+                    env.prove(f"{fname}:combine(subfields)=field", bool(np.array_equal(np.asarray(back), np.asarray(f.data))))
+                else:
+                    env.same(f"{fname}:combine(subfields)=field", list(np.asarray(back, dtype=dt).flat), list(np.asarray(f.data, dtype=dt).flat))
+    if not concrete:
+        env.reach()
+
+
 def scenario_subdivide(env, cfg):
     """_subdivide: float expression vs integer specification (exhaustive for num <= 48)"""
     from pde.grids._mesh import _subdivide
@@ -310,6 +369,14 @@ def cases(tier, seed):
                 per = list(spec.get("periodic", ())) or [False, bool(spec.get("periodic_z"))]
                 split = any(p_ and k > 1 for p_, k in zip(per, dec))
                 out.append({"name": f"data:{g}:{dname}:laplace:anti-periodic:{'seam-split' if split else 'seam-unsplit'}", "scenario": "scenario_data", "cfg": {"grid": g, "dec": list(dec), "op": "laplace", "rot": 1, "anti": True}})
+    # field-level splitting (fields of all ranks and collections): symbolic contents, and concrete legs for the dtypes
+    for g, dec in (("cart1", (2,)), ("cart2", (2, 1)), ("cart2:periodic-x", (1, 2)), ("polar:nohole", (2,))) if q else (("cart1", (2,)), ("cart1", (3,)), ("cart2", (2, 1)), ("cart2", (2, 2)), ("cart2:periodic-x", (1, 2)), ("polar:nohole", (2,)), ("sph:hole", (3,)), ("cyl:periodic_z", (1, 2))):
+        if g not in GRIDS:
+            continue
+        dname = "x".join(map(str, dec))
+        out.append({"name": f"subfields:{g}:{dname}", "scenario": "scenario_subfields", "cfg": {"grid": g, "dec": list(dec)}})
+        for dtype in ("complex128", "float32"):
+            out.append({"name": f"subfields:{g}:{dname}:dtype={dtype}", "scenario": "scenario_subfields", "cfg": {"grid": g, "dec": list(dec), "dtype": dtype}, "validate_paths": 0})
     for c in out:
         if ":cyl:" in c["name"]:
             c["allowed"] = ["NotImplementedError"]
